@@ -606,3 +606,100 @@ def _b_simple(seed, tier):
 
 
 Bounded('C05', 'simplebinner_plain_mean', _b_simple, doc='np.histogram / np.digitize based: outside the verified subset')
+
+
+# ------------------------------------------------------------------ util.bindown (the histogram binner, 1-D data): plain mean between mid-points
+def _ub_edges(c, nb, B, k):
+    """bin edges of the fast binner: mid-points between neighbouring target points, the end bins symmetric"""
+    first = nb[0] - (nb[1] - nb[0]) / 2
+    last = nb[B - 1] + (nb[B - 1] - nb[B - 2]) / 2
+    if c.mode == 'conc':
+        return first if k == 0 else (last if k == B else (nb[k] + nb[k - 1]) / 2)
+    return z3.If(to_int(k) == 0, first, z3.If(to_int(k) == to_int(B), last, (nb[k] + nb[k - 1]) / 2))
+
+
+def _ub_post(c, v0, v1, r):
+    x, dta, nb = v0.original_bin, v0.original_data, v0.new_bin
+    N, B = c.Len(x), c.Len(nb)
+    d = {'one_value_per_target_point': c.Len(r) == B}
+    if c.mode == 'conc':
+        ok = True
+        for k in range(B):
+            lo, hi = _ub_edges(c, nb, B, k), _ub_edges(c, nb, B, k + 1)
+            inside = [j for j in range(N) if lo <= x[j] and (x[j] < hi or (k == B - 1 and x[j] == hi))]
+            if inside:
+                want = sum(dta[j] for j in inside) / len(inside)
+                ok = ok and abs(r[k] - want) <= 1e-9 * max(1.0, abs(want))
+        d['plain_mean_of_the_points_between_the_mid_points'] = ok
+        return d
+    if c.mode == 'bmc':
+        return d
+
+    def inbin(k, j):
+        lo, hi = _ub_edges(c, nb, B, k), _ub_edges(c, nb, B, k + 1)
+        return z3.And(lo <= x[j], z3.Or(x[j] < hi, z3.And(to_int(k) == to_int(B) - 1, x[j] == hi)))
+    cnt = lambda k: c.Sum(0, N, lambda j: z3.If(inbin(k, j), z3.RealVal(1), z3.RealVal(0)))
+    tot = lambda k: c.Sum(0, N, lambda j: z3.If(inbin(k, j), dta[j], z3.RealVal(0)))
+    d['plain_mean_of_the_points_between_the_mid_points'] = c.Forall(0, B, lambda k: r[k] == tot(k) / cnt(k))
+    return d
+
+
+def _ub_native(c, p):
+    import numpy as np
+    from taurex.util.util import bindown
+    return np.asarray(bindown(np.array(p['original_bin'], dtype=float), np.array(p['original_data'], dtype=float), np.array(p['new_bin'], dtype=float)),
+                      dtype=float), p
+
+
+UBD = Unit('C05', 'taurex.util.util:bindown', lambda c: dict(original_bin=c.array('x', (c.int('N'),)), original_data=c.array('d', (c.int('N'),)),
+                                                             new_bin=c.array('nb', (c.int('B'),)), last_point=None),
+           pre=lambda c, v: {'sizes': c.And(c.Len(v.original_bin) >= 0, c.Len(v.new_bin) >= 2),
+                             'target_points_ascending': c.Forall2((0, c.Len(v.new_bin)), (0, c.Len(v.new_bin)),
+                                                                  lambda i, j: c.Implies(i < j, v.new_bin[i] < v.new_bin[j]))},
+           post=_ub_post, native=_ub_native, safety=('index', 'sorted'),
+           result=lambda ex, st, v0: st.alloc(ex.c, ex.c.fresh_array('binned', (ex.c.Len(v0.new_bin),))),
+           gen=lambda rng: (lambda N, B: dict(N=N, B=B, x=sorted(rng.uniform(100, 900) for _ in range(N)), d=[rng.uniform(0, 1) for _ in range(N)],
+                                              nb=sorted(rng.uniform(50, 950) for _ in range(B))))(rng.randint(0, 12), rng.randint(2, 5)),
+           bounds=[dict(N=2, B=2)], short='util.bindown',
+           doc='the fast binner on 1-D data: every target point with at least one native point between its two mid-point edges gets their '
+               'plain mean (np.histogram: assumed model; the 2-D branch with np.digitize stays bounded)')
+
+
+# ------------------------------------------------------------------ SimpleBinner.bindown: the fast binner on the binner's own grid
+class _NS0:
+    def __init__(s_, **kw):
+        s_.__dict__.update(kw)
+
+
+def _sb_post(c, v0, v1, r):
+    if not (isinstance(r, tuple) and len(r) == 4):
+        return {'four_results': False}
+    B = c.Len(v0.self._wngrid)
+    d = {'grid_and_widths_of_the_binner': c.And(c.Len(r[0]) == B, c.Forall(0, B, lambda k: c.And(r[0][k] == v0.self._wngrid[k], r[3][k] == v0.self._wn_width[k]))),
+         'no_errors': r[2] is None}
+    inner = _ub_post(c, _NS0(original_bin=v0.wngrid, original_data=v0.spectrum, new_bin=v0.self._wngrid), None, r[1])
+    d.update({'spectrum.' + k: g for k, g in inner.items()})
+    return d
+
+
+def _sb_native(c, p):
+    import numpy as np
+    from taurex.binning.simplebinner import SimpleBinner
+    o = SimpleBinner.__new__(SimpleBinner)
+    o._wngrid, o._wn_width = np.array(p['self']['_wngrid'], dtype=float), np.array(p['self']['_wn_width'], dtype=float)
+    r = o.bindown(np.array(p['wngrid'], dtype=float), np.array(p['spectrum'], dtype=float))
+    return (np.asarray(r[0]), np.asarray(r[1]), r[2], np.asarray(r[3])), p
+
+
+SBD = Unit('C05', 'taurex.binning.simplebinner:SimpleBinner.bindown',
+           lambda c: dict(self=ObjSpec('SimpleBinner', _wngrid=c.array('g', (c.int('B'),)), _wn_width=c.array('w', (c.int('B'),))),
+                          wngrid=c.array('x', (c.int('N'),)), spectrum=c.array('d', (c.int('N'),)), grid_width=None, error=None),
+           pre=lambda c, v: {'sizes': c.And(c.Len(v.wngrid) >= 0, c.Len(v.self._wngrid) >= 2),
+                             'target_points_ascending': c.Forall2((0, c.Len(v.self._wngrid)), (0, c.Len(v.self._wngrid)),
+                                                                  lambda i, j: c.Implies(i < j, v.self._wngrid[i] < v.self._wngrid[j]))},
+           post=_sb_post, native=_sb_native, safety=('index',),
+           gen=lambda rng: (lambda N, B: dict(N=N, B=B, x=sorted(rng.uniform(100, 900) for _ in range(N)), d=[rng.uniform(0, 1) for _ in range(N)],
+                                              g=sorted(rng.uniform(50, 950) for _ in range(B)), w=[rng.uniform(1, 9) for _ in range(B)]))(
+               rng.randint(0, 12), rng.randint(2, 5)),
+           bounds=[dict(N=2, B=2)], short='SimpleBinner.bindown',
+           doc='the histogram binner: its own grid and widths returned unchanged, the spectrum binned by util.bindown (by contract) onto that grid')
